@@ -284,7 +284,7 @@ pub fn run(args: &[String]) -> ! {
                account itself). Oracle: every balance decrease of a non-signer and every changed key \
                of a privileged family is justified by the pre-transaction authority. Non-trivial: \
                >= 1 successful privileged change and >= 1 explicitly-signed attempt in the history",
-        cases_quick: 700,
+        cases_quick: 1400,
         cases_thorough: 25_000,
         shards: 12,
         min_nontrivial: 0.2,
